@@ -17,10 +17,10 @@ P = {
  "C03": ("Per pinned exponent cell (D3 for TwoFloat+-f64 in all three pairings, D4 for TwoFloat+-TwoFloat and assign forms) one query over all 53-bit significands and signs proves validity and |r-exact| <= 2*2^-106|exact| resp. (3*2^-106+13*2^-159)|exact| with the exact sum computed in 640-bit integers; exact-zero clause per anchor cell; Iterator::sum == left fold for item types TwoFloat, &TwoFloat, f64 with the addition as an uninterpreted function (length <= 3).",
          "The tight constants are decided on the listed cells only (cancellation and tie cells always, others rotated by VERIF_SEED); generic-low-word cells need 5-40 min each and live in the thorough tier. ",
          "exponent cells, full significands, integer oracle; UF stub for sum"),
- "C04": ("DWxf64 (three pairings, 2u^2) and DWxDW (operator and *=, 5u^2) against exact integer products on pinned cells with the leading M fraction bits of every operand word free (M=16 quick, 24 thorough); DWxf64 additionally with concrete short-significand factors and the double-double operand at full width. Exact clauses unsplit over all valid x in range: zero factor, +-1 factor (f64 and TwoFloat, both orders, *=), power-of-two factor with symbolic k in [-60,60].",
-         "Full-width significands with a symbolic factor do not terminate (probed to 50 min): the bound is decided for M<=24-bit operand significands or concrete short factors; dense constant factors are attempted only. Exact clauses assume low words 0 or >= 2^-959 (CBMC fma gap). ",
+ "C04": ("DWxf64 (three pairings, 2u^2) and DWxDW (operator and *=, 5u^2) against exact integer products on pinned cells with the leading M fraction bits of every operand word free (M=16 quick, 24 thorough); DWxf64 additionally on mixed-width cells (low word at full width, the two multiplied words with 28 free fraction bits) and with concrete short-significand factors against a full-width double-double operand. Exact clauses unsplit over all valid x in range: zero factor, +-1 factor (f64 and TwoFloat, both orders, *=), power-of-two factor with symbolic k in [-60,60].",
+         "Full-width significands with a symbolic factor do not terminate (probed to 50 min): the bound is decided for M<=24-bit operand significands, for 28-bit multiplied words with a full-width low word (DWxf64), or for concrete short factors; dense constant factors are attempted only. Exact clauses assume low words 0 or >= 2^-959 (CBMC fma gap). ",
          "exponent cells with significand restriction M; concrete-operand sets; unsplit exact clauses"),
- "C05": ("TwoFloat/f64 and /= : |q*b-a|*2^106 <= 3|a| in exact integers for 14 concrete short-significand divisors (both signs) against a fully symbolic dividend per cell; exact clauses unsplit over all valid x in range: division by +-1, by 2^k (k symbolic), zero numerator through each division routine; x/x == 1 on a list of pinned ground values.",
+ "C05": ("TwoFloat/f64 and /= : |q*b-a|*2^106 <= 3|a| in exact integers for 14 concrete short-significand divisors (both signs) against a fully symbolic dividend per cell; exact clauses unsplit over all valid x in range: division by +-1, by 2^k (k symbolic), zero numerator through each division routine; x/x == 1 for every x whose words have <= 6 free fraction bits (symbolic divisor feasible only for short significands) and on a list of pinned ground values.",
          "The 16u^2 clause (f64/TwoFloat, TwoFloat/TwoFloat, /=, recip) and x/x == 1 for symbolic x are out of reach (three chained FP dividers; every probe timed out) - attempted in thorough, otherwise protected only through C10's form equivalences. ",
          "concrete divisor sets with symbolic dividend cells; unsplit exact clauses"),
  "C06": ("Complete queries over all pairs of bit patterns: == symmetric, == iff partial_cmp == Equal, NaN word => unequal/unordered in both orders, derived operators follow partial_cmp, TwoFloat/f64 forms against the exact sign oracle, min/max skip invalid operands, abs/signum/copysign/is_sign_* against the exact sign (float comparison of lo with -hi). Agreement with the exact real value of TwoFloat/TwoFloat comparison, min and max: per pinned exponent cell against the sign of the 640-bit integer difference.",
@@ -38,13 +38,13 @@ P = {
  "C10": ("Forwarding forms (value/reference x4, assign x2; + - * / %; three operand pairings) with the reference-reference impl as an uninterpreted function, all bit patterns; operator vs compound assignment (textual copies) with the shared kernels new_add/new_sub/new_mul/fast_two_sum/fma/renorm3 as UFs for all bit patterns, plus unstubbed per-cell comparisons; algebraic identities on the real code per cell; Iterator::sum == fold (UF); every Float/FloatCore/Signed/Inv/Pow/One/Zero/Bounded entry point against its inherent callee as a recording UF (argument passed unchanged, result returned unchanged); mul_add == self*a+b.",
          "UF = 'for every pure function in place of the callee'; identities are cell-wise. ",
          "uninterpreted-function (Ackermann) stubs; exponent cells for identities"),
- "C11": ("(1) libm::fma - the fma of the no_std configuration, real soft-float code - is shown correctly rounded against an independent integer oracle (exact 106-bit product + addend, round-to-nearest-even decided in 640-bit integers) per alignment cell d = be(z)-be(xy) in -110..110 with all significands and signs, far classes with symbolic exponent, and an unsplit special-operand query (NaN/inf/zero). (2) side condition regenerated each run: the MIR of the crate under both feature sets is identical except for the body of arithmetic::fma.",
+ "C11": ("(1) libm::fma - the fma of the no_std configuration, real soft-float code - is shown correctly rounded against an independent integer oracle (exact 106-bit product + addend, round-to-nearest-even decided in 640-bit integers) per alignment cell d = be(z)-be(xy) in -110..110 with all significands and signs, far classes with symbolic exponent, and an unsplit special-operand query (NaN/inf/zero). (2) the crate's own no_std fma wrapper is reached through new_mul in the nostd configuration (exact against the integer product). (3) side condition regenerated each run: the MIR of the crate under both feature sets is identical except for the body of arithmetic::fma, which must be exactly one call of f64::mul_add resp. libm::fma.",
          "That f64::mul_add of the std configuration (hardware / C library) is correctly rounded is assumed (the crate itself routes around MinGW); NaN payloads not compared; x,y anchored at [1,2) (four more anchor pairs in thorough); results in the normal range. The MIR diff is a compiler-IR comparison, not a solver query. ",
          "integer rounding oracle per alignment cell; MIR configuration diff"),
  "C12": ("Ground queries: the 19 compiled constants and the 19 FloatConst accessors equal (RN(c), RN(c-RN(c))) computed at check time by mpmath at 400 bits; MAX/MIN valid and bounding every valid x (one query over all valid x); MIN_POSITIVE, NAN != NAN, infinities invalid. to_degrees/to_radians: for every x exactly one multiplication by the mpmath-rounded 180/pi resp. pi/180 whose result is returned unchanged (recording stub).",
          "The 6u^2 accuracy of to_degrees/to_radians then follows on paper from C04's 5u^2 plus the constant's 2^-107 error; the direct query with the dense constant is attempted only. The constant comparison is constant folding (degenerate solver step) - its value is the independent mpmath oracle. ",
          "ground comparison with an independent oracle; recording stub"),
- "C13": ("Decided: powi never panics for ANY x and ANY i32 n (loop fully unwound, multiplications havoc'd); powi(x,0), powi(x,1); powi(x,-n) == powi(x,n).recip() for 0<n<=255 with multiplication and recip as UFs; sign of powi for negative x on a cell (n<=3); sqrt of every valid negative value invalid, sqrt(0)=0; cbrt(0)=0 and two exact cubes as pinned ground queries.",
+ "C13": ("Decided: powi never panics for ANY x and ANY i32 n (loop fully unwound, multiplications havoc'd); powi(x,0), powi(x,1); powi(x,-n) == powi(x,n).recip() for 0<n<=255 with multiplication and recip as UFs; sign of powi for negative x on a cell (n<=3) and powi(-1, n) at the extreme exponents i32::MIN, i32::MIN+1, i32::MAX (pinned ground, real code); sqrt of every valid negative value invalid, sqrt(0)=0; cbrt(0)=0 and two exact cubes as pinned ground queries.",
          "OUT OF CLAIM: the accuracy constants of sqrt (attempted at M=12..16 in thorough through the soft libm::sqrt), cbrt, hypot and powi - n-th power / cube oracles on symbolic 106-bit values are beyond the back end. A perturbed Newton step is therefore not detected except at the ground points. ",
          "havoc/UF stubs for control logic; pinned ground queries"),
  "C14": ("Decided: exp, exp2, exp_m1 never panic for ANY valid argument (double-double operators havoc'd, real argument reduction, rounding, table indexing, recursion); powf's own logic never panics; range switches of exp/exp2 for all valid x; exp(0)=1, exp_m1(0)=0; exp2(k)=2^k for a sample of integers (pinned ground); powf logic for all valid x,y with exp/ln/mul as recording UFs (0^0, x^0, 0^y, negative base with integer / non-integer exponent, exp applied to y*ln|x|).",
@@ -62,7 +62,7 @@ P = {
  "C18": ("Decided: exact points (pinned ground, real code); acosh(x) for x in (-1,1): the real x*x-1, sqrt and addition hand ln a NaN argument, per class/cell (hi==1 with lo<0 at several distances at full width; |hi| in [1/2,1) and [2^-30,1/2) with M bits), and ln(NaN) invalid; ground domain points of acosh/atanh; no panic site of their own.",
          "OUT OF CLAIM: every accuracy statement including the asinh(-x) cancellation the property singles out (needs the true asinh; a surrogate such as odd symmetry is not the property); atanh(|x|>1) goes through a double-double division and is only decided at ground points. ",
          "exponent cells with recording UF for ln; pinned ground queries"),
- "C19": ("Small-integer class: a integer valued with |a| < 2^8 symbolic (both signs), b in {+-3,+-5,+-7,+-10,+-31}: every form of % (TwoFloat or f64 on either side, %=), div_euclid and rem_euclid equal Rust's i64 %, div_euclid, rem_euclid exactly - all four sign combinations of the +-1 adjustment.",
+ "C19": ("Small-integer class: a integer valued with |a| < 2^8 symbolic (both signs), b in {+-3,+-5,+-7,+-10,+-31}: every form of % (TwoFloat or f64 on either side, %=), div_euclid and rem_euclid equal Rust's i64 %, div_euclid, rem_euclid exactly - all four sign combinations of the +-1 adjustment. Second class: concrete double-double divisors with a NON-ZERO low word (b = (5, 2^-60), (3, -2^-58), (7, 2^-70)) against small integer dividends (|a| < 2^6 symbolic): a - k*b within 16*2^-106*max(|a|,|b|) for exactly k = trunc(a/b), div_euclid exactly floor(a/b), with a fixed-point oracle whose k is a solver-chosen witness.",
          "The tolerance clause for general operands is out of reach for the TwoFloat/TwoFloat-based forms (chained dividers) and only ATTEMPTED for TwoFloat % f64 with concrete divisors (thorough); |a| < 2^12 attempted. ",
          "small-integer class against i64 semantics; witness-k integer oracle (attempt)"),
  "C20": ("serde: an in-harness Deserializer feeds sequences and maps of symbolic length 0..3, symbolic keys in {hi, lo, unknown} and symbolic f64 values to the real Deserialize visitor: Ok iff well formed and valid, words bit-identical, never an invalid TwoFloat; a recording Serializer checks the emitted struct and the round trip (sequence, map in either order). Formatting: with f64's Display/LowerExp/UpperExp stubbed to a token that records value and flags, every (hi,lo) x {plain,+,.p,+.p}: output is '<hi> <sign of lo> <|lo|>' with the flags handed on correctly.",
